@@ -124,7 +124,7 @@ mut('method0-size-invariant', 'LogContainer.cpp', [["        /* the stored paylo
     ['C10'], ['B3|uncompress|size-invariant'], 'declared size trusted for uncompressed containers')
 mut('eos-before-loop', 'File.cpp', [["void File::uncompressedFileWriteThread(File * file) {\n    try {\n", "void File::uncompressedFileWriteThread(File * file) {\n    /* set end of file */\n    file->m_uncompressedFile.setFileSize(file->m_uncompressedFile.tellp());\n    try {\n"]],
     ['C07'], ['K8|File::uncompressedFileWriteThread|m_uncompressedFile'], 'end of stream declared before the last transfer')
-mut('null-check-dropped', 'File.cpp', [["    if (obj == nullptr) {\n        /* in case of unknown objectType */\n        m_uncompressedFile.seekg(ohb.objectSize, std::ios_base::cur);\n        return;\n    }\n", ""]],
+mut('null-check-dropped', 'File.cpp', [["    if (obj == nullptr) {\n        /* in case of unknown objectType */\n        m_uncompressedFile.seekg(ohb.objectSize, std::ios_base::cur);\n\n        /* drop old data */\n        m_uncompressedFile.dropOldData();\n        return;\n    }\n", ""]],
     ['C10', 'C09'], ['DN|createObject|null-check', 'S2|unknown-skip'], 'unknown object types are dereferenced')
 
 mut('copy-without-min', 'UncompressedFile.cpp', [["        std::streamsize gcount = std::min(n, static_cast<std::streamsize>(logContainer->uncompressedFileSize - offset));", "        std::streamsize gcount = n;"]],
@@ -148,6 +148,9 @@ mut('static-zero-buffer', 'AbstractFile.cpp', [["    std::vector<char> zero;\n  
     ['C14', 'C11'], ['G1|static-locals', 'Z1|skipp'], 'padding source shared by all threads without synchronisation')
 mut('factory-narrowed-switch', 'File.cpp', [["    switch (type) {\n    case ObjectType::UNKNOWN:", "    switch (static_cast<ObjectType>(static_cast<uint16_t>(type))) {\n    case ObjectType::UNKNOWN:"]],
     ['C17'], ['D3|switch|operand'], '32-bit codes alias assigned 16-bit codes')
+
+mut('skip-without-drop', 'File.cpp', [["        m_uncompressedFile.seekg(ohb.objectSize, std::ios_base::cur);\n\n        /* drop old data */\n        m_uncompressedFile.dropOldData();\n        return;", "        m_uncompressedFile.seekg(ohb.objectSize, std::ios_base::cur);\n        return;"]],
+    ['C12'], ['P3|File::uncompressedFile2ReadWriteQueue'], 'a stretch of unknown objects keeps every inflated container in memory')
 
 # ------------------------------------------------------------------ benign refactorings (must stay silent)
 ALL_LAYOUT = ['C01', 'C02', 'C03', 'C10', 'C14']
